@@ -31,7 +31,8 @@ CHECKS = {
                      "(exhaustive over the choice set, per state).",
                 nontrivial_rule="a history counts if an allocate was answered; distinct by history hash.",
                 floors={"quick": {"c04_allocate": 1000, "c04_choice_outcome": 20000, "c04_choice_states": 1000, "c04_refill_exact": 2,
-                                  "c04_long_allocations": 20, "c09_emit_allocated": 1000}}),
+                                  "c04_long_allocations": 20, "c09_emit_allocated": 1000,
+                                  "c04_only_free_name_after_retirement": 40}}),
     "C05": dict(module=H, level="exploration",
                 rule="Same engine, 5 sides on 1-2 nameplates/mailboxes of one app; every touch of a third or later side judged by the admitted-sides oracle.",
                 nontrivial_rule="a history counts if a third side touched a mailbox; distinct by history hash.",
